@@ -28,7 +28,8 @@ def base_models():
     nested = dict(logic, lcons=logic["lcons"] + [O(21, O(24, V(2), N(1)), O(34, O(24, V(2), N(1))))])
     noobj = dict(lp, objs=[])
     obj2 = dict(lp, objs=lp["objs"] + [{"max": True, "lin": [[0, 2], [1, -1]]}])
-    return {"ok_lp": lp, "ok_logic": logic, "infeas": infeas, "unsupported": unsup, "needbounds": needb,
+    quad = dict(lp, cons=[{"lb": None, "ub": 9, "lin": [], "expr": O(0, O(2, V(0), V(2)), O(2, V(1), V(1)))}])
+    return {"ok_quad": quad, "ok_lp": lp, "ok_logic": logic, "infeas": infeas, "unsupported": unsup, "needbounds": needb,
             "infeas_nested": nested, "ok_noobj": noobj, "ok_obj2": obj2}
 
 
@@ -40,7 +41,7 @@ def nl_text(m, tmp):
 
 def concretise(s, models, texts, bigm_opts, rnd):
     """abstract scenario -> driver case"""
-    c = {"args": {"ampl": ["-AMPL"], "wantsol": ["wantsol=1"], "plain": []}[s["mode"]], "opts": [], "files": {}}
+    c = {"args": {"ampl": ["-AMPL"], "wantsol": ["wantsol=1"], "plain": [], "wantsol7": ["wantsol=7"], "print": ["wantsol=6"]}[s["mode"]], "opts": [], "files": {}}
     mk = s["model"]
     src = {"trunc_header": "ok_lp", "trunc_body": "ok_logic", "bad_opcode": "ok_logic", "bad_index": "ok_logic",
            "empty": "ok_lp", "missing": "ok_lp"}.get(mk, mk)
@@ -95,8 +96,8 @@ def run(tier):
     mc = tlc("MCDriver", "MCDriver.cfg", cwd=sd, workers=NPROC)
     tlc_must_pass(mc, "MCDriver")
     scen = printed_json(mc, "CASE")
-    if len(scen) != 4014:
-        raise Broken("expected 4014 scenarios, got %d" % len(scen))
+    if len(scen) != 5054:
+        raise Broken("expected 5054 scenarios, got %d" % len(scen))
     scen.sort(key=lambda s: json.dumps(s, sort_keys=True))
     exe = targets.get("h_drv")
     cfgs, acc = cvtcases.configs(exe)
